@@ -633,7 +633,7 @@ class Survey:
         if min_amplitude == 'half_nf':
             min_amplitude = self.noise_floor
             if min_amplitude is not None:
-                min_amplitude /= 2.0
+                min_amplitude = min_amplitude/2.0
         if min_amplitude is not None:
             cut_amp = abs(self.data.observed.data) < min_amplitude
             self.data[add_to].data[cut_amp] = np.nan + 1j*np.nan
